@@ -86,6 +86,40 @@ func TestNoReplay(t *testing.T) {
 						t.Fatalf("block processing accepted a body of %d txs containing a replay (%s) of %s tx %x (nonce %d, tx epoch %d) first included at height %d; head %d epoch %d\nhistory:\n%s", len(body), class, sim.TxTypeNames[it.tx.Type], it.tx.Hash(), it.tx.AccountNonce, it.tx.Epoch, it.height, r.Head().Height(), preEpoch, h.Summary())
 					}
 				}
+				// 3. a third party re-stamps the included transaction for the present (epoch and/or nonce rewritten, the
+				//    signature kept): it must not come back as a transaction of the original signer
+				next := s.State.GetNonce(sender) + 1
+				if s.State.GetEpoch(sender) < preEpoch {
+					next = 1
+				}
+				for _, stamp := range []string{"epoch", "nonce", "epoch+nonce"} {
+					c := sim.WireCopyTx(it.tx)
+					if stamp != "nonce" {
+						c.Epoch = preEpoch
+					}
+					if stamp != "epoch" {
+						c.AccountNonce = next
+					}
+					if c.Epoch == it.tx.Epoch && c.AccountNonce == it.tx.AccountNonce {
+						continue
+					}
+					evid.Eval()
+					evid.Count("restamp." + stamp)
+					if s2, _ := types.Sender(c); s2 != sender {
+						continue // a transaction of somebody else (an address nobody holds the key of)
+					}
+					evid.Count("restamp.keeps_the_signer")
+					cs, err := r.AppState.ForCheck(r.Head().Height())
+					if err != nil {
+						t.Fatalf("ForCheck: %v", err)
+					}
+					hdr := &types.Header{ProposedHeader: &types.ProposedHeader{Height: r.Head().Height() + 1, ParentHash: r.Head().Hash(), Time: w.Now().Unix(), ProposerPubKey: w.God.Pub}}
+					_, perr := r.Chain.VerifProcessTxs(cs, []*types.Transaction{c}, hdr)
+					if perr == nil || r.Pool.AddExternalTxs(validation.InboundTx, sim.WireCopyTx(c)) == nil {
+						t.Fatalf("%s tx %x of %s (signed for epoch %d, nonce %d, included at height %d) with its %s rewritten to epoch %d nonce %d and the signature kept is accepted as a transaction of the same signer\nhistory:\n%s",
+							sim.TxTypeNames[it.tx.Type], it.tx.Hash(), w.Name(sender), it.tx.Epoch, it.tx.AccountNonce, it.height, stamp, c.Epoch, c.AccountNonce, h.Summary())
+					}
+				}
 				if class != "same-epoch" {
 					evid.NonTrivial(fmt.Sprintf("%s|%s|type=%s|age=%d", h.W.P.Profile, class, sim.TxTypeNames[it.tx.Type], r.Head().Height()-it.height))
 					evid.Sample("replay", fmt.Sprintf("%s of %s first included at %d, re-offered at head %d", class, sim.TxTypeNames[it.tx.Type], it.height, r.Head().Height()))
